@@ -193,9 +193,17 @@ pub fn run(rep: &mut Report) {
             for r in &ops {
                 let cfg = Cfg::prefix(menu, depth, seed ^ crate::engine::util::fnv(&format!("{:?}{:?}{:?}", p, o, r)));
                 let body = || run_rep(r, p, o);
+                let mut survivor_sets: std::collections::HashSet<Vec<u32>> = std::collections::HashSet::new();
                 tape::explore(&cfg, &body, &mut |prefix, out, _| {
                     sub.transitions += 1;
                     sub.traces += 1;
+                    if let Outcome::Done((Ok(()), pops)) = out {
+                        if let Some(top) = pops.first() {
+                            let mut t: Vec<u32> = top.iter().map(|i| i.0).collect();
+                            t.sort();
+                            survivor_sets.insert(t);
+                        }
+                    }
                     match out {
                         Outcome::Done((res, pops)) => sub.outcome(format!("{}:{}:{}", r.name(), res.is_ok(), pops.first().map(|x| x.len()).unwrap_or(0))),
                         Outcome::Panic(_) => sub.outcome(format!("{}:panic", r.name())),
@@ -207,6 +215,23 @@ pub fn run(rep: &mut Report) {
                     }
                 });
                 sub.states += 1;
+                // "mu random ones": which individuals survive depends on the generator (whatever their objective values)
+                if let Rep::Random(mu) = r {
+                    let total = p.len() + o.len();
+                    let distinct_tags = {
+                        let mut t: Vec<u32> = p.iter().chain(o.iter()).map(|i| i.0).collect();
+                        t.sort();
+                        t.dedup();
+                        t.len() == total
+                    };
+                    if (*mu as usize) > 0 && (*mu as usize) < total && distinct_tags && survivor_sets.len() < 2 {
+                        sub.violate(
+                            format!("C12 op={} survivors-do-not-depend-on-the-generator", r.name()),
+                            format!("{:?} with parents {:?} and offspring {:?}: over all explored generator tapes the survivors are always {:?}", r, p, o, survivor_sets),
+                            json!({"rep": format!("{:?}", r), "parents": p, "offspring": o, "tape": [], "menu": menu.len(), "seed": seed, "spread": true}),
+                        );
+                    }
+                }
             }
             if p.len() == 2 && o.len() == 1 {
                 sub.sample(json!({"parents": p, "offspring": o, "operators": "all"}));
@@ -242,6 +267,23 @@ pub fn replay(case: &Value) -> Result<Vec<(String, String)>, String> {
     let tape: Vec<u32> = case["tape"].as_array().ok_or("no tape")?.iter().map(|x| x.as_u64().unwrap() as u32).collect();
     let menu: &[u64] = if case["menu"].as_u64() == Some(4) { &MENU4 } else { &MENU8 };
     let seed = case["seed"].as_u64().unwrap_or(0);
+    if case["spread"].as_bool() == Some(true) {
+        // the whole tape set of the recorded tier again
+        let depth = if menu.len() == 4 { 4 } else { 5 };
+        let cfg = Cfg::prefix(menu, depth, seed ^ crate::engine::util::fnv(&format!("{:?}{:?}{:?}", p, o, r)));
+        let mut sets: std::collections::HashSet<Vec<u32>> = std::collections::HashSet::new();
+        let body = || run_rep(&r, &p, &o);
+        tape::explore(&cfg, &body, &mut |_, out, _| {
+            if let Outcome::Done((Ok(()), pops)) = out {
+                if let Some(top) = pops.first() {
+                    let mut t: Vec<u32> = top.iter().map(|i| i.0).collect();
+                    t.sort();
+                    sets.insert(t);
+                }
+            }
+        });
+        return Ok(if sets.len() < 2 { vec![(format!("C12 op={} survivors-do-not-depend-on-the-generator", r.name()), format!("{:?}", sets))] } else { vec![] });
+    }
     let cfg = Cfg::prefix(menu, 16, seed ^ crate::engine::util::fnv(&format!("{:?}{:?}{:?}", p, o, r)));
     let (out, _) = tape::run_once(&cfg, &tape, || run_rep(&r, &p, &o));
     Ok(check(&r, &p, &o, &out).into_iter().collect())
